@@ -79,6 +79,7 @@ def tasks(tier, seed):
     for k in range(4):
         ts.append({"part": "successive", "k": k, "name": "successive/%d" % k})
     ts.append({"part": "app-callable", "name": "app-callable"})
+    ts.append({"part": "jar", "name": "jar"})
     return ts
 
 
@@ -351,6 +352,59 @@ def successive_case(u, o, n=3):
     return None
 
 
+def jar_case(scheme, host, set_cookie, o_cookie, via):
+    """The cookie option on a connection for whose host the cookie jar already holds cookies (set by an earlier handshake response): the
+    option's cookie still appears exactly as given, next to the jar's (C20 decides WHICH jar cookies belong there)."""
+    lib.reset_globals()
+    env.install_urandom("real")
+    net = simnet.Net()
+    peers = []
+
+    class JarPeer(Peer):
+        def on_send(self, sock, data):
+            if self.request_bytes is None and b"\r\n\r\n" in bytes(sock.written):
+                self.request_bytes = bytes(sock.written)
+                key = HS.parse_request(self.request_bytes)["key"] or ""
+                extra = [b"Set-Cookie: " + set_cookie.encode()] if (set_cookie and len(peers) == 1) else []
+                sock.stream += HS.response_101(key, extra=extra)
+
+    def peer_for(net_, sock, address):
+        p = JarPeer()
+        peers.append(p)
+        return p
+
+    net.peer_for = peer_for
+    simnet.install(net)
+    url = "%s://%s/chat" % (scheme, host)
+    label = "jar filled by 'Set-Cookie: %s' from %s, then %s with cookie=%r" % (set_cookie, url, via, o_cookie)
+    if via == "app":
+        env.install_selectors()
+    try:
+        ws, e = env.open_via("connect", url, {}, {})
+        if e is not None:
+            return ({"kind": "connect-failed", "exc": type(e).__name__}, "%s: first connection raised %r" % (label, e))
+        ws.shutdown()
+        ws, e = env.open_via(via, url, {}, {"cookie": o_cookie} if o_cookie is not None else {})
+        if e is not None:
+            return ({"kind": "connect-failed", "exc": type(e).__name__}, "%s: second connection raised %r" % (label, e))
+    finally:
+        env.uninstall_selectors()
+        simnet.uninstall()
+        env.uninstall_urandom()
+    req = HS.parse_request(peers[1].request_bytes)
+    ck = req["h"].get("cookie") or []
+    parts = [x.strip() for v in ck for x in v.split(";") if x.strip()]
+    want = [x.strip() for x in (o_cookie or "").split(";") if x.strip()]
+    if len(ck) > 1:
+        return ({"kind": "request-wrong", "field": "cookie", "jar": True}, "%s: %d Cookie headers: %r" % (label, len(ck), ck))
+    missing = [w for w in want if w not in parts]
+    if missing:
+        return ({"kind": "request-wrong", "field": "cookie", "jar": True}, "%s: the option's cookie %r is missing, Cookie header is %r" % (label, missing, ck))
+    if o_cookie is not None and ck and o_cookie not in ck[0]:
+        return ({"kind": "request-wrong", "field": "cookie", "jar": True}, "%s: the option's cookie string does not appear as given in %r" % (label, ck))
+    return None
+
+
 def callable_header_case(form, attempts_lost):
     """WebSocketApp(header=<callable>) with a reconnect interval: the callable is the option, so every connection attempt sends what the
     callable returns for THAT attempt (the option's documentation: it is called just before each connection attempt)."""
@@ -472,6 +526,23 @@ def run_task(desc):
             for o in O:
                 run(u, o)
         res["samples"].append({"url": make_url(U[desc["ulo"]]), "options": "all 2048 combinations"})
+    elif part == "jar":
+        for scheme in ("ws", "wss"):
+            for host in ("example.com", "sub.example.com", "10.0.0.1"):
+                for sc in (None, "sid=abc; Domain=example.com", "sid=abc; Domain=.example.com; Path=/", "a=1; Domain=sub.example.com", "sid=abc", "c=1; Domain=example.com"):
+                    for ock in (None, "c=9; d=10", "theme=dark"):
+                        for via in ("connect", "create_connection", "app"):
+                            n_ = (scheme, host, sc, ock, via)
+                            try:
+                                f = jar_case(*n_)
+                            except Exception as e:
+                                v = as_violation(e)
+                                if v is None:
+                                    raise
+                                f = (v.sig, v.what)
+                            n += 1
+                            if f is not None:
+                                runner.add_failure(res, f[0], f[1], {"case": "jar", "args": list(n_)})
     elif part == "app-callable":
         for form in ("list", "dict"):
             for lost in (0, 1, 2):
@@ -518,6 +589,8 @@ def replay(rep):
         f = successive_case(tuple(rep["u"]), tuple(rep["o"]))
     elif rep["case"] == "app-callable":
         f = callable_header_case(*rep["args"])
+    elif rep["case"] == "jar":
+        f = jar_case(*rep["args"])
     else:
         o = tuple(rep["o"])
         f = one_case(tuple(rep["u"]), o, rep.get("via"))
